@@ -335,8 +335,8 @@ func (pb prefixDBBatch) GetByteSize() (int, error) {
 	return pb.source.GetByteSize()
 }
 
-// Returns a slice of the same length (big endian)
-// except incremented by one.
+// Returns the smallest key that is greater than every key starting with bz:
+// bz without its trailing 0xFF bytes, incremented by one (big endian).
 // Returns nil on overflow (e.g. if bz bytes are all 0xFF)
 // CONTRACT: len(bz) > 0
 func cpIncr(bz []byte) (ret []byte) {
@@ -347,7 +347,9 @@ func cpIncr(bz []byte) (ret []byte) {
 	for i := len(bz) - 1; i >= 0; i-- {
 		if ret[i] < byte(0xFF) {
 			ret[i]++
-			return
+			// the bytes after i were 0xFF: keeping them (as 0x00) would leave keys such as
+			// ret[:i+1] itself, which do not start with bz, below the bound
+			return ret[:i+1]
 		}
 		ret[i] = byte(0x00)
 		if i == 0 {
